@@ -77,6 +77,9 @@ pub fn entries() -> Vec<Entry> {
         ("vcs.parsed", |s| debian_control::vcs::ParsedVcs::from_str(s).is_ok()),
         ("vcs.git", |s| debian_control::vcs::Vcs::from_field("Git", s).is_ok()),
         ("vcs.svn", |s| debian_control::vcs::Vcs::from_field("Svn", s).is_ok()),
+        ("vcs.bzr", |s| debian_control::vcs::Vcs::from_field("Bzr", s).is_ok()),
+        ("vcs.hg", |s| debian_control::vcs::Vcs::from_field("Hg", s).is_ok()),
+        ("vcs.cvs", |s| debian_control::vcs::Vcs::from_field("Cvs", s).is_ok()),
         ("vcs.other", |s| debian_control::vcs::Vcs::from_field(s, s).is_ok()),
         ("identity", |s| debian_control::parse_identity(s).is_ok()),
         ("f.priority", |s| debian_control::fields::Priority::from_str(s).is_ok()),
@@ -151,32 +154,82 @@ pub fn handle(op: &str, a: &[&str]) -> Option<Resp> {
             let f = entries().into_iter().find(|(n, _)| n == entry)?.1;
             Some(Resp::ok(if f(&s) { "ok".to_string() } else { "err".to_string() }))
         }
-        ("total.time", [entry, shape, size]) => {
-            // time clause: the call must finish well within a generous bound on large inputs
+        ("total.time", [entry, shape, size, cmp]) | ("total.time", [entry, shape, size, cmp, _]) => {
+            // time clause: the call must finish well within a generous bound on large inputs;
+            // acceptance class on the large input when `cmp` = 1 (the model answers it too)
             let n: usize = size.parse().ok()?;
-            let unit = match *shape {
-                "valid" => "Package: a\nDepends: b (>= 1), c | d [amd64] <x>\n x\n\n",
-                "errors" => ":: \u{e9}(([[<<${ -\n",
-                "long" => "a",
-                _ => return None,
-            };
-            let mut s = String::with_capacity(n + unit.len());
-            while s.len() < n {
-                s.push_str(unit);
-            }
+            let s = shape_text(shape, n)?;
             let f = entries().into_iter().find(|(n, _)| n == entry)?.1;
             let t0 = std::time::Instant::now();
             let ok = f(&s);
             let dt = t0.elapsed().as_secs_f64();
             let fail = if dt > 10.0 { Some(format!("{} took {:.1}s on {} bytes ({})", entry, dt, s.len(), shape)) } else { None };
             // the observable deliberately excludes the time itself
-            Some(Resp::with(format!("{} t<10s", if ok { "ok" } else { "err" }).replace("ok t<10s", "done").replace("err t<10s", "done"), fail))
+            let obs = if *cmp == "1" { if ok { "ok" } else { "err" } } else { "done" };
+            Some(Resp::with(obs.to_string(), fail))
         }
         _ => None,
     }
 }
 
-const REL_ALPHABET: [&str; 18] = ["a", "1", ":", "|", ",", "(", ")", "[", "]", "!", "<", ">", "=", "$", "{", "}", " ", "\n"];
+/// the large inputs of `total.time`: `prefix ++ unit x k ++ suffix`, `k` the least number of
+/// repetitions with `k * |unit| >= n` (bytes) -- the same table as `shapeParts` in Driver/Total.lean
+pub const SHAPES: [&str; 9] = ["valid", "errors", "long", "value1", "contlines", "archlist", "alts", "pgp", "files"];
+
+fn shape_parts(shape: &str) -> Option<(&'static str, &'static str, &'static str)> {
+    Some(match shape {
+        // repeated units (no prefix)
+        "valid" => ("", "Package: a\nDepends: b (>= 1), c | d [amd64] <x>\n x\n\n", ""),
+        "errors" => ("", ":: \u{e9}(([[<<${ -\n", ""),
+        "long" => ("", "a", ""),
+        // one paragraph with one huge value line
+        "value1" => ("Package: a\nDepends: ", "b (>= 1), ", "c\n"),
+        // one field with n/3 continuation lines
+        "contlines" => ("Package: a\nDescription: x\n", " y\n", ""),
+        // one relation with a huge architecture list
+        "archlist" => ("a [", "b ", "]"),
+        // n/4 alternatives
+        "alts" => ("a", " | a", ""),
+        // one signed message with n/2 payload lines
+        "pgp" => ("-----BEGIN PGP SIGNED MESSAGE-----\nHash: SHA256\n\n", "x\n", "-----BEGIN PGP SIGNATURE-----\nabc\n-----END PGP SIGNATURE-----\n"),
+        // a copyright file whose Files field has n/3 patterns
+        "files" => ("Format: https://www.debian.org/doc/packaging-manuals/copyright-format/1.0/\n\nFiles: ", "*a ", "\nCopyright: x\nLicense: MIT\n"),
+        _ => return None,
+    })
+}
+
+pub fn shape_text(shape: &str, n: usize) -> Option<String> {
+    let (pre, unit, suf) = shape_parts(shape)?;
+    let k = (n + unit.len() - 1) / unit.len();
+    let mut s = String::with_capacity(pre.len() + k * unit.len() + suf.len());
+    s.push_str(pre);
+    for _ in 0..k {
+        s.push_str(unit);
+    }
+    s.push_str(suf);
+    Some(s)
+}
+
+/// is the acceptance class on this large input compared with the model? Not where the Lean model's
+/// *representation* is quadratic although its round count is linear (`Props/C02More`): the lossy deb822
+/// reader appends every continuation line to a `List Char` accumulator.
+fn compared(entry: &str, shape: &str, n: usize) -> bool {
+    !(shape == "contlines" && n > 32_000 && LOSSY_DEB.contains(&entry))
+}
+
+const LOSSY_DEB: [&str; 12] = [
+    "deb.lossy", "deb.lossypara", "deb.lossyreader", "lctl.control", "lctl.release", "lctl.source", "lctl.package", "lctl.buildinfo", "lctl.removal",
+    "cpr.lossy", "dep3.lossy", "apt.repos",
+];
+
+/// the relation alphabet of generators (b), (c): one character per token class of the relation lexer,
+/// plus `-` `.` (identifier characters that are not alphanumeric), tab and CR (blank characters other
+/// than the space) and a non-ASCII character
+const REL_ALPHABET: [&str; 23] = [
+    "a", "1", ":", "|", ",", "(", ")", "[", "]", "!", "<", ">", "=", "$", "{", "}", " ", "\n", "\u{e9}", "\r", "\t", "-", ".",
+];
+/// the first 18 symbols (the alphabet of earlier runs): enumerated one symbol longer in the thorough tier
+const REL_ALPHABET_OLD: usize = 18;
 
 pub fn generate_c02(tier: &str, seed: u64, out: &mut Out) {
     let thorough = tier == "thorough";
@@ -188,6 +241,29 @@ pub fn generate_c02(tier: &str, seed: u64, out: &mut Out) {
         .filter(|n| n.starts_with("deb.") || n.starts_with("ctl.") || n.starts_with("lctl.") || n.starts_with("cpr.l") || *n == "cpr.relaxed" || n.starts_with("cpr.from_file") || n.starts_with("dep3.lo") || *n == "apt.repos" || *n == "pgp.strip")
         .collect();
     let small: Vec<&str> = es_all.iter().map(|e| e.0).filter(|n| !deb_like.contains(n)).collect();
+    // (f) time clause on large inputs (generous bound; only catches blow-ups), and the acceptance
+    //     class on them: repeated units and prefix + unit x k + suffix shapes. The requests are
+    //     spread over block (b) so that the supervisor's contiguous slices share the slow ones.
+    let sizes: &[usize] = if thorough { &[1_000, 32_000, 1_000_000] } else { &[1_000, 32_000, 200_000] };
+    let mut time_reqs: Vec<Vec<String>> = vec![];
+    for e in es_all.iter() {
+        for shape in SHAPES {
+            for sz in sizes {
+                let cmp = if compared(e.0, shape, *sz) { "1" } else { "0" };
+                let mut args = vec![e.0.to_string(), shape.to_string(), sz.to_string(), cmp.to_string()];
+                if cmp == "1" {
+                    if let Some(k) = typed_kind(e.0) {
+                        let text = shape_text(shape, *sz).unwrap();
+                        if let Some(col) = crate::typeddoc::ext_column_kind(k, &text) {
+                            args.push(col);
+                        }
+                    }
+                }
+                time_reqs.push(args);
+            }
+        }
+    }
+    let mut next_time = 0usize;
     // (a) deb822-shaped entry points: all strings over the deb822 class alphabet
     for t in strings_upto(&deb::ALPHABET, if thorough { 4 } else { 3 }) {
         for e in &deb_like {
@@ -195,9 +271,22 @@ pub fn generate_c02(tier: &str, seed: u64, out: &mut Out) {
         }
     }
     // (b) value-shaped entry points: all strings over the relation alphabet
-    for t in strings_upto(&REL_ALPHABET, if thorough { 4 } else { 3 }) {
+    for (i, t) in strings_upto(&REL_ALPHABET, 3).iter().enumerate() {
         for e in &small {
-            req_total(out, e, &t);
+            req_total(out, e, t);
+        }
+        if i % 6 == 0 && next_time < time_reqs.len() {
+            out.req("total.time", &time_reqs[next_time]);
+            next_time += 1;
+        }
+    }
+    if thorough {
+        for t in strings_upto(&REL_ALPHABET[..REL_ALPHABET_OLD], 4) {
+            if t.chars().count() == 4 {
+                for e in &small {
+                    req_total(out, e, &t);
+                }
+            }
         }
     }
     // (b2) realistic values of the value-shaped entry points, with the white-space variants a field
@@ -335,13 +424,9 @@ pub fn generate_c02(tier: &str, seed: u64, out: &mut Out) {
             }
         }
     }
-    // (f) time clause on large inputs (generous bound; only catches blow-ups)
-    let sizes: &[usize] = if thorough { &[1_000, 32_000, 1_000_000] } else { &[1_000, 32_000, 200_000] };
-    for e in es_all.iter() {
-        for shape in ["valid", "errors", "long"] {
-            for sz in sizes {
-                out.req("total.time", &[e.0.to_string(), shape.to_string(), sz.to_string()]);
-            }
-        }
+    // (f) the rest of the large-input requests (see `time_reqs` above)
+    while next_time < time_reqs.len() {
+        out.req("total.time", &time_reqs[next_time]);
+        next_time += 1;
     }
 }
